@@ -61,6 +61,10 @@ def bijection(r, ids, kind):
         r.shuffle(vals)
         if k > 1 and vals == sorted(vals) and all(isinstance(i, int) for i in ids) and ids == vals:
             vals[0], vals[1] = vals[1], vals[0]
+    elif kind == "negatives":
+        # -1 and -2 have the same hash in CPython
+        vals = [-(i + 1) for i in range(k)]
+        r.shuffle(vals)
     elif kind == "gapped":
         start = r.randint(0, 5)
         vals = [start + 3 * i for i in range(k)]
@@ -288,8 +292,8 @@ def do_replica(sim, rec):
         return None
     m = act.model
     r = random.Random(rec["seed"])
-    nk = r.choice(["other_ints", "perm_range", "gapped", "strs_n"])
-    ek = r.choice(["other_ints", "perm_range", "perm_range", "gapped", "strs_e"])
+    nk = r.choice(["other_ints", "perm_range", "gapped", "strs_n", "negatives"])
+    ek = r.choice(["other_ints", "perm_range", "perm_range", "gapped", "strs_e", "negatives"])
     f = bijection(r, m.nodes, nk)
     g = bijection(r, m.edges, ek)
     if ek == "perm_range":
